@@ -33,6 +33,9 @@ import (
 	"github.com/btcsuite/btcd/wire"
 	"github.com/btcsuite/btcutil"
 	"github.com/keep-network/keep-core/pkg/bitcoin"
+	"github.com/keep-network/keep-core/pkg/chain"
+	"github.com/keep-network/keep-core/pkg/tbtc"
+	"github.com/keep-network/keep-core/pkg/tbtcpg"
 )
 
 type fakeChain struct {
@@ -46,6 +49,9 @@ func (f *fakeChain) GetTransaction(h bitcoin.Hash) (*bitcoin.Transaction, error)
 	}
 	return nil, fmt.Errorf("transaction not found")
 }
+
+// EstimateSatPerVByteFee: 1 sat/vbyte, so an estimated fee IS the estimated virtual size.
+func (f *fakeChain) EstimateSatPerVByteFee(blocks uint32) (int64, error) { return 1, nil }
 
 var (
 	curve   = btcec.S256()
@@ -141,8 +147,255 @@ func vsizeOf(tx *bitcoin.Transaction) (int64, bool) {
 	return v, v == (w+3)/4
 }
 
+// ---- whole flows: tbtcpg estimators vs tbtc assemblers ------------------------
+
+func newChain() *fakeChain { return &fakeChain{txs: map[bitcoin.Hash]*bitcoin.Transaction{}} }
+
+func (f *fakeChain) addUtxo(id int, value int64, lock []byte) *bitcoin.UnspentTransactionOutput {
+	h := bitcoin.Hash(sha256.Sum256([]byte(fmt.Sprintf("c30-flow-%d", id))))
+	f.txs[h] = &bitcoin.Transaction{Version: 1, Outputs: []*bitcoin.TransactionOutput{{Value: value, PublicKeyScript: lock}}}
+	return &bitcoin.UnspentTransactionOutput{
+		Outpoint: &bitcoin.TransactionOutpoint{TransactionHash: h, OutputIndex: 0}, Value: value,
+	}
+}
+
+func walletLock() []byte {
+	pkh := bitcoin.PublicKeyHash(pubKey)
+	sc, _ := bitcoin.PayToWitnessPublicKeyHash(pkh)
+	return sc
+}
+
+// signAll signs every input with a signature of the wanted length and measures the result.
+func signAll(b *bitcoin.TransactionBuilder, sigLens []int) string {
+	hashes, err := b.ComputeSignatureHashes()
+	if err != nil || len(hashes) != len(sigLens) {
+		return "err inputs"
+	}
+	sigs := make([]*bitcoin.SignatureContainer, len(hashes))
+	for i := range hashes {
+		r, s := sign(hashes[i], sigLens[i], 1000+i)
+		if r == nil {
+			return "err nonce"
+		}
+		sigs[i] = &bitcoin.SignatureContainer{R: r, S: s, PublicKey: pubKey}
+	}
+	tx, err := b.AddSignatures(sigs)
+	if err != nil {
+		return "err"
+	}
+	for i, in := range tx.Inputs {
+		if len(in.Witness) < 2 || len(in.Witness[0]) != sigLens[i] {
+			return "err siglen"
+		}
+	}
+	v, ok := vsizeOf(tx)
+	if !ok {
+		return "err vsize"
+	}
+	return strconv.FormatInt(v, 10)
+}
+
+func sigLenTok(s string) (int, bool) {
+	v, err := strconv.Atoi(s)
+	return v, err == nil && v >= 70 && v <= 72
+}
+
+func flowObs(fee int64, err error, realStr string) string {
+	estStr := "err"
+	if err == nil {
+		estStr = strconv.FormatInt(fee, 10)
+	}
+	return "est=" + estStr + " real=" + realStr
+}
+
+func outScript(kind string, i int) []byte {
+	var h20 [20]byte
+	var h32 [32]byte
+	h20[0], h32[0] = byte(i), byte(i)
+	var sc bitcoin.Script
+	switch kind {
+	case "p":
+		sc, _ = bitcoin.PayToPublicKeyHash(h20)
+	case "w":
+		sc, _ = bitcoin.PayToWitnessPublicKeyHash(h20)
+	case "s":
+		sc, _ = bitcoin.PayToScriptHash(h20)
+	case "S":
+		sc, _ = bitcoin.PayToWitnessScriptHash(h32)
+	}
+	return sc
+}
+
+func execFlow(f []string) (string, string) {
+	fc := newChain()
+	const big = uint64(1) << 40
+	switch f[0] {
+	case "txsweep":
+		if len(f) != 3 {
+			return "bad-op", "bad"
+		}
+		var sigLens []int
+		var main *bitcoin.UnspentTransactionOutput
+		tag := "txsweep+nomain"
+		if f[1] != "-" {
+			sl, ok := sigLenTok(f[1])
+			if !ok {
+				return "bad-op", "bad"
+			}
+			sigLens = append(sigLens, sl)
+			main = fc.addUtxo(0, 5000000, walletLock())
+			tag = "txsweep+main"
+		}
+		var deposits []*tbtc.Deposit
+		for i, t := range hx.SplitList(f[2]) {
+			p := strings.Split(t, ":")
+			if len(p) != 2 || (p[0] != "e" && p[0] != "n") {
+				return "bad-op", "bad"
+			}
+			sl, ok := sigLenTok(p[1])
+			if !ok {
+				return "bad-op", "bad"
+			}
+			sigLens = append(sigLens, sl)
+			d := &tbtc.Deposit{Depositor: chain.Address(fmt.Sprintf("0x%040x", 0xd000+i))}
+			copy(d.WalletPublicKeyHash[:], walletLock()[2:])
+			d.BlindingFactor[0] = byte(i)
+			d.RefundLocktime = [4]byte{1, 2, 3, 4}
+			if p[0] == "e" {
+				var extra [32]byte
+				extra[0] = byte(i + 1)
+				d.ExtraData = &extra
+				tag += "+extra"
+			} else {
+				tag += "+plain"
+			}
+			sc, err := d.Script()
+			if err != nil {
+				return "harness-error deposit script", "bad"
+			}
+			lock, _ := bitcoin.PayToWitnessScriptHash(bitcoin.WitnessScriptHash(sc))
+			d.Utxo = fc.addUtxo(i+1, int64(200000+i), lock)
+			deposits = append(deposits, d)
+		}
+		if len(deposits) == 0 {
+			return "bad-op", "bad"
+		}
+		fee, _, err := tbtcpg.VerifC30EstimateDepositsSweepFee(fc, len(deposits), big)
+		b, aerr := tbtc.VerifC26AssembleDepositSweepTransaction(fc, pubKey, main, deposits, 1000)
+		if aerr != nil {
+			return "harness-error assemble: " + aerr.Error(), "bad"
+		}
+		return flowObs(fee, err, signAll(b, sigLens)), dedupTag(tag)
+
+	case "txredeem":
+		if len(f) != 4 || (f[2] != "0" && f[2] != "1") {
+			return "bad-op", "bad"
+		}
+		sl, ok := sigLenTok(f[1])
+		if !ok {
+			return "bad-op", "bad"
+		}
+		var scripts []bitcoin.Script
+		var reqs []*tbtc.RedemptionRequest
+		total := int64(0)
+		for i, k := range hx.SplitList(f[3]) {
+			if len(k) != 1 || !strings.Contains("pwsS", k) {
+				return "bad-op", "bad"
+			}
+			sc := outScript(k, i)
+			scripts = append(scripts, sc)
+			reqs = append(reqs, &tbtc.RedemptionRequest{RedeemerOutputScript: sc, RequestedAmount: 100000, TreasuryFee: 50})
+			total += 100000 - 50
+		}
+		if len(reqs) == 0 {
+			return "bad-op", "bad"
+		}
+		tag := "txredeem+nochange"
+		if f[2] == "1" {
+			total += 777
+			tag = "txredeem+change"
+		}
+		main := fc.addUtxo(0, total, walletLock())
+		fee, err := tbtcpg.EstimateRedemptionFee(fc, scripts)
+		b, aerr := tbtc.VerifC26AssembleRedemptionTransaction(fc, pubKey, main, reqs, 1000)
+		if aerr != nil {
+			return "harness-error assemble: " + aerr.Error(), "bad"
+		}
+		return flowObs(fee, err, signAll(b, []int{sl})), tag
+
+	case "txmove":
+		if len(f) != 3 {
+			return "bad-op", "bad"
+		}
+		sl, ok := sigLenTok(f[1])
+		n, e := strconv.Atoi(f[2])
+		if !ok || e != nil || n < 1 || n > 300 {
+			return "bad-op", "bad"
+		}
+		targets := make([][20]byte, n)
+		for i := range targets {
+			targets[i][0], targets[i][1] = byte(i), byte(i>>8)
+		}
+		main := fc.addUtxo(0, 90000000, walletLock())
+		fee, err := tbtcpg.EstimateMovingFundsFee(fc, n, big)
+		b, aerr := tbtc.VerifC26AssembleMovingFundsTransaction(fc, main, targets, 1000)
+		if aerr != nil {
+			return "harness-error assemble: " + aerr.Error(), "bad"
+		}
+		return flowObs(fee, err, signAll(b, []int{sl})), "txmove"
+
+	case "txmsweep":
+		if len(f) != 3 {
+			return "bad-op", "bad"
+		}
+		sl, ok := sigLenTok(f[1])
+		if !ok {
+			return "bad-op", "bad"
+		}
+		sigLens := []int{sl}
+		moved := fc.addUtxo(0, 90000000, walletLock())
+		var main *bitcoin.UnspentTransactionOutput
+		tag := "txmsweep+nomain"
+		if f[2] != "-" {
+			sl2, ok := sigLenTok(f[2])
+			if !ok {
+				return "bad-op", "bad"
+			}
+			sigLens = append(sigLens, sl2)
+			main = fc.addUtxo(1, 1234567, walletLock())
+			tag = "txmsweep+main"
+		}
+		fee, err := tbtcpg.EstimateMovedFundsSweepFee(fc, main != nil, big)
+		b, aerr := tbtc.VerifC26AssembleMovedFundsSweepTransaction(fc, pubKey, moved, main, 1000)
+		if aerr != nil {
+			return "harness-error assemble: " + aerr.Error(), "bad"
+		}
+		return flowObs(fee, err, signAll(b, sigLens)), tag
+	}
+	return "bad-op", "bad"
+}
+
+func dedupTag(t string) string {
+	seen := map[string]bool{}
+	var out []string
+	for _, p := range strings.Split(t, "+") {
+		if !seen[p] {
+			seen[p] = true
+			out = append(out, p)
+		}
+	}
+	return strings.Join(out, "+")
+}
+
 func exec(op string) (string, string) {
 	f := strings.Fields(op)
+	if len(f) > 0 && strings.HasPrefix(f[0], "tx") {
+		return execFlow(f)
+	}
+	return execSize(f)
+}
+
+func execSize(f []string) (string, string) {
 	if len(f) == 3 && f[0] == "der" {
 		r, ok1 := new(big.Int).SetString(f[1], 16)
 		s, ok2 := new(big.Int).SetString(f[2], 16)
@@ -443,6 +696,51 @@ func gen(r *hx.Rng, n int, tier string) []string {
 			ops = append(ops, "der "+hexOf(pick())+" "+hexOf(pick()))
 			continue
 		}
+		sl := func() int {
+			return hx.Pick(r, []int{72, 72, 72, 71, 71, 70})
+		}
+		if r.Chance(1, 4) { // whole flows
+			allMaxF := r.Chance(1, 3)
+			sg := func() int {
+				if allMaxF {
+					return 72
+				}
+				return sl()
+			}
+			switch r.Intn(6) {
+			case 0, 1, 2:
+				main := "-"
+				if r.Chance(2, 3) {
+					main = strconv.Itoa(sg())
+				}
+				nd := r.Range(1, 20)
+				var deps []string
+				for j := 0; j < nd; j++ {
+					deps = append(deps, fmt.Sprintf("%s:%d", hx.Pick(r, []string{"e", "n"}), sg()))
+				}
+				ops = append(ops, "txsweep "+main+" "+hx.JoinStrs(deps))
+			case 3:
+				no := r.Range(1, 20)
+				var outs []string
+				for j := 0; j < no; j++ {
+					outs = append(outs, hx.Pick(r, []string{"p", "w", "s", "S"}))
+				}
+				ops = append(ops, fmt.Sprintf("txredeem %d %d %s", sg(), r.Intn(2), hx.JoinStrs(outs)))
+			case 4:
+				nn := r.Range(1, 12)
+				if r.Chance(1, 20) {
+					nn = r.Range(250, 256)
+				}
+				ops = append(ops, fmt.Sprintf("txmove %d %d", sg(), nn))
+			default:
+				main := "-"
+				if r.Bool() {
+					main = strconv.Itoa(sg())
+				}
+				ops = append(ops, fmt.Sprintf("txmsweep %d %s", sg(), main))
+			}
+			continue
+		}
 		var ins, outs []string
 		allMax := r.Chance(1, 3)
 		switch r.Intn(10) {
@@ -500,6 +798,18 @@ func gen(r *hx.Rng, n int, tier string) []string {
 	return ops
 }
 
+func depositScriptLen(extra bool) int {
+	d := &tbtc.Deposit{Depositor: chain.Address("0x" + strings.Repeat("ab", 20))}
+	if extra {
+		d.ExtraData = &[32]byte{1}
+	}
+	sc, err := d.Script()
+	if err != nil {
+		panic(err)
+	}
+	return len(sc)
+}
+
 func facts() []string {
 	l := func(s bitcoin.Script, err error) int {
 		if err != nil {
@@ -517,6 +827,9 @@ func facts() []string {
 		fmt.Sprintf("nat p2shLen %d", l(bitcoin.PayToScriptHash([20]byte{}))),
 		fmt.Sprintf("nat p2wshLen %d", l(bitcoin.PayToWitnessScriptHash([32]byte{}))),
 		fmt.Sprintf("nat curveOrder %s", curve.N.String()),
+		fmt.Sprintf("nat depositScriptByteSize %d", tbtcpg.VerifC30DepositScriptByteSize),
+		fmt.Sprintf("nat depositScriptLen %d", depositScriptLen(false)),
+		fmt.Sprintf("nat depositScriptExtraLen %d", depositScriptLen(true)),
 	}
 }
 
